@@ -191,11 +191,12 @@ type c22Env struct {
 	bs  []*c22Backend
 }
 
-// c22NewEnv opens the four stores. defaults=false gives badger an 8 MiB memtable instead of its default 64 MiB one
-// (allocating and clearing the default arenas is half the cost of a case); the memtable size bounds the largest
-// single write (15%), so every case that carries a large payload runs with defaults=true, i.e. exactly the hook's
-// default configuration.
-func c22NewEnv(defaults bool) (*c22Env, error) {
+// c22NewEnv opens the four stores. Allocating and clearing the arenas of badger's default 64 MiB memtable is most of
+// the cost of a case, and the memtable size matters only as the bound of the largest single write (15% of it), so:
+// size 0 (every record of the case is tiny) = 2 MiB memtable with the 128 KiB value threshold such a memtable requires;
+// size 1 (padded keys: records up to ~330 KiB) = 8 MiB memtable (writes up to 1.2 MiB), default value threshold;
+// size 2 (padded payloads) = exactly the hook's default configuration.
+func c22NewEnv(size int) (*c22Env, error) {
 	// Stores live on tmpfs when there is one: creating and closing badger/pebble/bolt stores fsyncs, which on a busy
 	// disk costs seconds per case; durability under power loss is outside the statement.
 	base := os.Getenv("VERIF_C22_DIR")
@@ -222,7 +223,11 @@ func c22NewEnv(defaults bool) (*c22Env, error) {
 	e.bs = []*c22Backend{
 		{name: "badger", mk: func() (mqtt.Hook, any) {
 			cfg := &badger.Options{Path: filepath.Join(dir, "badger")}
-			if !defaults {
+			switch size {
+			case 0:
+				o := badgerdb.DefaultOptions(cfg.Path).WithMemTableSize(2 << 20).WithValueThreshold(128 << 10)
+				cfg.Options = &o
+			case 1:
 				o := badgerdb.DefaultOptions(cfg.Path).WithMemTableSize(8 << 20)
 				cfg.Options = &o
 			}
@@ -698,13 +703,29 @@ func c22Check(c c22Case, r *evid.Rec) []evid.Disc {
 			return nil
 		}
 	}
-	defaults := false
-	for _, ev := range c.Evs {
-		if ev.Msg != nil && ev.Msg.PayPad > 0 {
-			defaults = true
+	size := 0
+	for _, cn := range c.Conns {
+		if cn.ID.Pad > 0 {
+			size = 1
 		}
 	}
-	env, err := c22NewEnv(defaults)
+	for _, ev := range c.Evs {
+		if ev.Msg != nil && ev.Msg.Topic.Pad > 0 || ev.Topic != nil && ev.Topic.Pad > 0 {
+			size = 1
+		}
+		for _, f := range ev.Filters {
+			if f.F.Pad > 0 {
+				size = 1
+			}
+		}
+	}
+	for _, ev := range c.Evs {
+		if ev.Msg != nil && ev.Msg.PayPad > 0 {
+			size = 2
+		}
+	}
+	r.Label(fmt.Sprintf("badger-config-%d", size))
+	env, err := c22NewEnv(size)
 	if err != nil {
 		r.Inconclusive("storage environment could not be created: " + err.Error())
 		return nil
@@ -867,8 +888,10 @@ func c22Check(c c22Case, r *evid.Rec) []evid.Disc {
 			}
 		}
 	}
-	for k := range classes {
-		r.Label(k)
+	for k, on := range classes {
+		if on {
+			r.Label(k)
+		}
 	}
 	if classes["removal"] || classes["key-collision-candidate"] {
 		b, _ := json.Marshal(c)
@@ -971,8 +994,8 @@ func c22GenMsg(rt *rapid.T, topic kstr, pid uint16, big bool) *c22Msg {
 
 func c22Gen(rt *rapid.T) c22Case {
 	var c c22Case
-	long := rapid.IntRange(0, 24).Draw(rt, "longclass") == 0
-	big := rapid.IntRange(0, 79).Draw(rt, "bigclass") == 0
+	long := rapid.IntRange(0, 29).Draw(rt, "longclass") == 17
+	big := rapid.IntRange(0, 59).Draw(rt, "bigclass") == 31 // rapid favours the ends of a range; a middle value keeps the class rare
 	reopen := rapid.IntRange(0, 11).Draw(rt, "reopenclass") == 0
 	// collision class: ids "a:b" and "a" with filters "c" and "b:c" share the subscription key "a:b:c"
 	coll := !long && rapid.IntRange(0, 5).Draw(rt, "collisionclass") == 0
